@@ -52,8 +52,10 @@ FeatSet(m) == {FeatBits[i] : i \in {j \in 1..Len(FeatBits) : Bit(m, j - 1)}}
 \* position a caller gives node n when there is no segmentation (2 axes)
 UserPos(n) == << <<n, 1>>, <<2 * n + 1, 2>> >>
 
+\* (9 / 10: a dict with TWO keys - the custom attribute and the time, in either order: refused as a whole)
 KeyName(k) == CASE k = 1 -> "cust" [] k = 2 -> "time" [] k = 3 -> "tid" [] k = 4 -> "lid"
-                [] k = 5 -> "pos" [] k = 6 -> "area" [] k = 7 -> "iou" [] k = 8 -> "circ" [] OTHER -> "cust"
+                [] k = 5 -> "pos" [] k = 6 -> "area" [] k = 7 -> "iou" [] k = 8 -> "circ"
+                [] k \in {9, 10} -> "time" [] OTHER -> "cust"
 
 \* pixels of frame t selected by the bit mask over in-frame positions
 Stroke(t, bits) == {q \in Pix : FrameOf(q) = t /\ Bit(bits, InFrame(q))}
@@ -309,9 +311,12 @@ SameGraph(A, B) == A.time = B.time /\ A.E = B.E
 \* "in a tracking solution - after construction": the constructed object manages track ids (nobody disabled
 \* the feature) and they label the segments, whether they were given, partly given or computed
 P_C04Ctor(x) == (IsCtor(x.c) /\ x.pf.forest) =>
-    (x.ok /\ SameGraph(x.pre, x.post) /\ "tid" \in x.post.act /\ TidOK(x.post))
+    (x.ok /\ SameGraph(x.pre, x.post) /\ "tid" \in x.post.act /\ TidOK(x.post)
+     /\ \A n \in Present(x.post) : x.post.tid[n] <= x.post.maxT)
+\* (and the id source is not behind the ids in use - or the next edit that starts a lineage breaks the clause)
 P_C05Ctor(x) == (IsCtor(x.c) /\ x.pf.forest) =>
-    (x.ok /\ SameGraph(x.pre, x.post) /\ "lid" \in x.post.act /\ LidOK(x.post))
+    (x.ok /\ SameGraph(x.pre, x.post) /\ "lid" \in x.post.act /\ LidOK(x.post)
+     /\ \A n \in Present(x.post) : x.post.lid[n] <= x.post.maxL)
 P_C04Edit(x) == (x.pf.forest /\ x.pf.tid /\ x.ok /\ ~IsSwitch(x.c) /\ ~IsPrim(x.c)) =>
     /\ TidOK(x.post)
     /\ (IsEdit(x.c) => \A n \in Untouched(x) : x.post.tid[n] = x.pre.tid[n])
